@@ -660,7 +660,9 @@ macro_rules! algorithm {
             // We must have a format like `0x`, `0d`, `0o`. Note:
             if iter.read_if_value(base_prefix, format.case_sensitive_base_prefix()).is_some() {
                 is_prefix = true;
-                if iter.is_buffer_empty() {
+                // NOTE: `peek` skips digit separators: a prefix followed only
+                // by them has no digits either.
+                if iter.peek().is_none() {
                     into_error!(Empty, iter.cursor());
                 } else if $is_partial
                     && matches!(iter.peek(), Some(&c) if char_to_digit_const(c, radix).is_none())
